@@ -155,7 +155,7 @@ def conclude(prop, tier, seed, results, extras, wall, partial=False):
     seen_classes = set()
     replayed = 0
     search_cache = {}
-    SEARCH_KINDS = ("smtlib-solver", "hashcons", "optimizer-loop")
+    SEARCH_KINDS = ("smtlib-solver", "hashcons", "optimizer-loop", "oracle", "cnf", "walker", "sort-identity", "parser-reset", "walker-keys", "annotations", "factory")
     MAX_REPLAYS = 12          # native replays per run; further refutations are reported without one
     for r, o in refuted:
         key = (r["variant"], o["name"].rsplit("/", 1)[1])
@@ -170,7 +170,7 @@ def conclude(prop, tier, seed, results, extras, wall, partial=False):
             continue
         seen_classes.add(key)
         mod = importlib.import_module(r["module"])
-        kind = getattr(mod, "REPLAY_KIND", "generic")
+        kind = r.get("replay_kind") or getattr(mod, "REPLAY_KIND", "generic")
         path, rep = write_replay(prop, o, r, kind)
         k = match_known(prop, r.get("qualname"), o["name"], None, kf)
         if k is not None:
